@@ -18,7 +18,9 @@ RULE = ("programs of the feature's target family: 3-6 outputs sharing 2-4 nested
         "oracle at 6 points.  cpp units: header+source generated with CSE on and off; each generated function body "
         "is parsed (every _tK declared once, before use, from inputs and earlier temporaries only; no temporaries "
         "when CSE is off), both are compiled under ASan+UBSan and all outputs compared pairwise and against the "
-        "oracle.  non-trivial = program whose CSE-on build actually has >=2 temporaries (C++) / >=1 shared sub-term "
+        "oracle; the source of every generator is rendered a second time (parsed again, must be identical text); a "
+        "role-swapped twin is compiled in the same interpreter; probe units for the exp-overflow region and "
+        "saturating gates.  non-trivial = program whose CSE-on build actually has >=2 temporaries (C++) / >=1 shared sub-term "
         "used by >=2 outputs (Python); distinct = sha256(definition)")
 ASSUMPTIONS = [
     "pairwise tolerance 2e-9 relative to max(1,|value|,oracle scale)",
